@@ -310,7 +310,8 @@ def _run(ctx):
               'sync_unchanged_running_checked', 'sync_uncached_checked',
               'sync_cached_checked', 'sync_finished_checked',
               'cleanups_completed', 'finishes', 'boots',
-              'manager_killed_mid_handler', 'checkpoint_crosschecks'):
+              'manager_killed_mid_handler', 'checkpoint_crosschecks',
+              'quiescent_states_checked'):
         if nt.get(k, 0) == 0:
             raise statex.HarnessError('vacuous run: counter %s is 0' % k)
     return {'coverage': cov, 'violations': violations,
